@@ -20,6 +20,7 @@ VALUES = [
     {"u": "a b c\u0085d"},
     {},
     {"size": 7, "depth": "x", "is_leaf": None},   # attributes named like read-only NodeMixin properties
+    {"_id": 7, "__v": [1], "_": "underscore names are user attributes too", "id_": 1},
 ]
 OPTIONS = [
     {},
@@ -30,6 +31,11 @@ OPTIONS = [
     {"indent": 2, "separators": (", ", ": ")},
     {"indent": 4, "ensure_ascii": False, "sort_keys": True},
     {"indent": 1, "ensure_ascii": False, "separators": (",", ": ")},
+    # options passed explicitly with their default value (a wrapper forwarding optional settings), and the other indent forms
+    {"indent": None},
+    {"indent": None, "separators": None, "sort_keys": False, "ensure_ascii": True},
+    {"indent": 0},
+    {"indent": "\t", "sort_keys": True},
 ]
 DEXP = ("default", "sorted", "reversed", "subclass")
 
